@@ -49,7 +49,8 @@ func ParseTree(w []string) (*stores.Node, []string, bool) {
 	}
 	rest := w[1:]
 	arities := map[string]int{"mem": 0, "memcache": 0, "localdisk": 0, "diskpacked": 0, "encrypt": 0, "blobpacked": 0,
-		"ns": 1, "proxy": 2, "overlay": 2, "shard": 2, "replica": 2, "cond": 2, "shard3": 3, "replica3": 3, "union": 2, "union3": 3}
+		"ns": 1, "proxy": 2, "overlay": 2, "shard": 2, "replica": 2, "cond": 2, "shard3": 3, "replica3": 3, "shard4": 4, "replica4": 4,
+		"union": 2, "union3": 3}
 	arity, ok := arities[kind]
 	if !ok {
 		return nil, nil, false
@@ -57,10 +58,10 @@ func ParseTree(w []string) (*stores.Node, []string, bool) {
 	if kind == "union3" {
 		n.Kind = "union"
 	}
-	if kind == "shard3" {
+	if kind == "shard3" || kind == "shard4" {
 		n.Kind = "shard"
 	}
-	if kind == "replica3" {
+	if kind == "replica3" || kind == "replica4" {
 		n.Kind = "replica"
 	}
 	for i := 0; i < arity; i++ {
@@ -74,11 +75,23 @@ func ParseTree(w []string) (*stores.Node, []string, bool) {
 	return n, rest, true
 }
 
-func treeTokens(n *stores.Node) string {
+// TreeTokens renders a tree in the notation ParseTree reads (the part of a cfg line after `//`).
+func TreeTokens(n *stores.Node) string { return treeTokens(n) }
+
+// KindToken is the kind with its arity suffix: shard3, replica4, union3 (two children: no suffix).
+func KindToken(n *stores.Node) string {
 	k := n.Kind
-	if (k == "shard" || k == "replica" || k == "union") && len(n.Kids) == 3 {
+	if (k == "shard" || k == "replica") && len(n.Kids) > 2 {
+		k += strconv.Itoa(len(n.Kids))
+	}
+	if k == "union" && len(n.Kids) == 3 {
 		k += "3"
 	}
+	return k
+}
+
+func treeTokens(n *stores.Node) string {
+	k := KindToken(n)
 	if n.Max != 0 {
 		k += ":" + strconv.Itoa(n.Max)
 	}
@@ -375,13 +388,79 @@ func genTree(r *hk.Rand, depth int, asCache bool) *stores.Node {
 	case 2:
 		return &stores.Node{Kind: "overlay", Kids: []*stores.Node{genTree(r, depth-1, false), genTree(r, depth-1, false)}}
 	case 3:
-		return &stores.Node{Kind: "shard", Kids: []*stores.Node{genTree(r, depth-1, false), genTree(r, depth-1, false)}}
+		return fanNode(r, "shard", fan(r), depth-1)
 	case 4:
-		return &stores.Node{Kind: "replica", Kids: []*stores.Node{genTree(r, depth-1, false), genTree(r, depth-1, false)}}
+		return fanNode(r, "replica", fan(r), depth-1)
 	case 5:
 		return &stores.Node{Kind: "cond", Kids: []*stores.Node{genTree(r, depth-1, false), genTree(r, depth-1, false)}}
 	default:
 		return leaf()
+	}
+}
+
+// fan picks the number of sub-stores of a shard / replica node: 2..stores.MaxFan.
+func fan(r *hk.Rand) int { return []int{2, 2, 3, 3, 4}[r.Intn(5)] }
+
+// fanNode is a shard / replica over n random sub-trees of at most the given depth.
+func fanNode(r *hk.Rand, kind string, n, depth int) *stores.Node {
+	nd := &stores.Node{Kind: kind}
+	for i := 0; i < n; i++ {
+		nd.Kids = append(nd.Kids, genTree(r, depth, false))
+	}
+	return nd
+}
+
+// wideTree forces the shapes the random trees reach only now and then, in rotation: a 3- or 4-way
+// shard / replica at the root, inside each of the other combinators (namespace, proxycache, overlay,
+// cond, two-way shard, two-way replica), and over another n-way node.
+func wideTree(r *hk.Rand, which int) *stores.Node {
+	kind := []string{"shard", "replica"}[r.Intn(2)]
+	wide := func(depth int) *stores.Node { return fanNode(r, kind, 3+r.Intn(2), depth) }
+	switch which % 10 {
+	case 0:
+		return fanNode(r, "shard", 3+r.Intn(2), r.Intn(3))
+	case 1:
+		return fanNode(r, "replica", 3+r.Intn(2), r.Intn(3))
+	case 2:
+		return &stores.Node{Kind: "ns", Kids: []*stores.Node{wide(r.Intn(2))}}
+	case 3:
+		return &stores.Node{Kind: "proxy", Max: []int{1, 50, 300, 100000}[r.Intn(4)],
+			Kids: []*stores.Node{wide(r.Intn(2)), {Kind: "memcache", Max: []int{1, 60, 250, 100000}[r.Intn(4)]}}}
+	case 4, 5, 6, 7: // one of the two sub-stores of a two-way combinator
+		two := []*stores.Node{wide(r.Intn(2)), genTree(r, r.Intn(2), false)}
+		if r.Chance(50) {
+			two[0], two[1] = two[1], two[0]
+		}
+		return &stores.Node{Kind: []string{"overlay", "cond", "shard", "replica"}[which%10-4], Kids: two}
+	default: // an n-way node over another n-way node and other combinators
+		top := &stores.Node{Kind: []string{"shard", "replica"}[which%2]}
+		n := 3 + r.Intn(2)
+		at := r.Intn(n)
+		for i := 0; i < n; i++ {
+			if i == at {
+				top.Kids = append(top.Kids, wide(r.Intn(2)))
+			} else {
+				top.Kids = append(top.Kids, genTree(r, 1, false))
+			}
+		}
+		return top
+	}
+}
+
+// CountFans records, for the input distribution, every shard / replica node by its number of sub-stores,
+// and for the nodes with more than two: the kind of node they sit in and the kinds they sit over.
+func CountFans(r *hk.Run, n *stores.Node, parent string) {
+	if n.Kind == "shard" || n.Kind == "replica" {
+		r.Hit(fmt.Sprintf("fan:%s%d", n.Kind, len(n.Kids)))
+		if len(n.Kids) > 2 {
+			r.Hit("fan>2:under:" + parent)
+			for _, k := range n.Kids {
+				r.Hit("fan>2:over:" + KindToken(k))
+			}
+		}
+	}
+	for _, k := range n.Kids {
+		CountFans(r, k, KindToken(n))
 	}
 }
 
@@ -692,15 +771,20 @@ func trunc(s string) string {
 // Run generates the C01 cases.
 func Run(r *hk.Run) {
 	rnd := r.R
-	r.Res.Rule = "a case = one random configuration tree (depth ≤ 3; leaves memory/localdisk/diskpacked[maxFileSize]; inner namespace, proxycache[max] over evicting memcache[max], overlay, shard, replica, cond[isSchema; read=remove=replica]) built through the registered storage constructors, then a random history of receive/fetch/stat/enumerate/remove over a pool of blobs (empty, 1 byte, random, schema JSON, non-schema JSON; sha1/sha224/sha256 refs) with cursors that are empty, refs, refs±1 char, truncated/extended refs, hash-name prefixes and arbitrary bytes, limits 1..7 and 1000, then paging with 3 page sizes. Every answer is compared with the reference map (oracle) and with the Lean model. distinct_nontrivial = distinct (tree shape, op-kind multiset) pairs whose history re-received a removed blob or enumerated with a non-ref cursor"
+	r.Res.Rule = "a case = one random configuration tree (depth ≤ 3; leaves memory/localdisk/diskpacked[maxFileSize]; inner namespace, proxycache[max] over evicting memcache[max], overlay, shard and replica over 2, 3 or 4 sub-stores, cond[isSchema; read=remove=replica]; two trees in five have a 3- or 4-way shard/replica at the root, inside another combinator or over another n-way node) built through the registered storage constructors, then a random history of receive/fetch/stat/enumerate/remove over a pool of blobs (empty, 1 byte, random, schema JSON, non-schema JSON; sha1/sha224/sha256 refs) with cursors that are empty, refs, refs±1 char, truncated/extended refs, hash-name prefixes and arbitrary bytes, limits 1..7 and 1000, then paging with 3 page sizes. Every answer is compared with the reference map (oracle) and with the Lean model. distinct_nontrivial = distinct (tree shape, op-kind multiset) pairs whose history re-received a removed blob or enumerated with a non-ref cursor"
 	nTrees, nOps := 40, 120
 	if r.Thorough() {
 		nTrees, nOps = 500, 400
 	}
+	nWide := 0
 	for t := 0; t < nTrees; t++ {
 		tree := genTree(rnd, 1+rnd.Intn(3), false)
 		if t%5 == 0 {
 			tree = &stores.Node{Kind: "overlay", Kids: []*stores.Node{genTree(rnd, rnd.Intn(2), false), genTree(rnd, rnd.Intn(3), false)}}
+		}
+		if t%5 == 1 || t%5 == 3 {
+			tree = wideTree(rnd, nWide)
+			nWide++
 		}
 		tok, ok := tree.ModelToken()
 		if !ok {
@@ -717,7 +801,8 @@ func Run(r *hk.Run) {
 			r.Note("cannot build " + label + ": " + out)
 			continue
 		}
-		r.Hit("root:" + tree.Kind)
+		r.Hit("root:" + KindToken(tree))
+		CountFans(r, tree, "root")
 		if tree.Kind == "overlay" {
 			// an overlay is normally put over a store that already holds blobs
 			for i, b := range c.pool {
@@ -759,7 +844,8 @@ func Run(r *hk.Run) {
 }
 
 // oracleOnly runs the same histories on backends that have no Lean model behind the C01 driver
-// (n-ary shard/replica, read-only union, blobpacked and encrypt leaves): reference map only.
+// (read-only union, blobpacked and encrypt leaves; the two n-way specs predate the n-way model tokens
+// and stay as oracle-only cases): reference map only.
 func oracleOnly(r *hk.Run) {
 	rnd := r.R
 	specs := []string{"shard3 mem localdisk diskpacked:300", "replica3 mem mem localdisk", "union mem mem", "union3 mem localdisk mem",
